@@ -46,15 +46,23 @@ func genDate(r *Rng, lo, hi int) string {
 }
 
 func genDuration(r *Rng) string {
+	// the schema's pattern is ([0-9]+)y ([0-9]+)m ([0-9]+)d: any digit string is a decimal number,
+	// so a component may be written with leading zeros (08d, 010y, 0012m)
+	num := func(v int) string {
+		if r.Chance(1, 4) {
+			return fmt.Sprintf("%0*d", r.Range(2, 4), v)
+		}
+		return fmt.Sprint(v)
+	}
 	s := ""
 	if r.Bool() {
-		s += fmt.Sprintf("%dy", Pick(r, []int{0, 1, 2, 5, 10, 25, 49, 100}))
+		s += num(Pick(r, []int{0, 1, 2, 5, 8, 9, 10, 25, 49, 100})) + "y"
 	}
 	if r.Bool() {
-		s += fmt.Sprintf("%dm", Pick(r, []int{0, 1, 6, 11, 12, 13, 18, 120}))
+		s += num(Pick(r, []int{0, 1, 6, 8, 9, 11, 12, 13, 18, 120})) + "m"
 	}
 	if r.Bool() || s == "" {
-		s += fmt.Sprintf("%dd", Pick(r, []int{0, 1, 28, 29, 30, 31, 365, 366, 400, 10000}))
+		s += num(Pick(r, []int{0, 1, 8, 9, 19, 28, 29, 30, 31, 365, 366, 400, 10000})) + "d"
 	}
 	return s
 }
